@@ -284,10 +284,11 @@ def unmarshal (t : Ty) (bs : Bytes) : Option (Val × Bytes) := decode codec t bs
     `some (some k)` = `scale:"k"` -/
 abbrev FieldTag := Option (Option Int)
 
-/-- insertion into a list sorted by tag value (ties keep declaration order) -/
+/-- insertion into a list sorted by tag value (ties keep declaration order: `x` is declared before
+    everything already in the list) -/
 def insertTagged (x : Nat × Int) : List (Nat × Int) → List (Nat × Int)
   | [] => [x]
-  | y :: ys => if x.2 < y.2 then x :: y :: ys else y :: insertTagged x ys
+  | y :: ys => if x.2 ≤ y.2 then x :: y :: ys else y :: insertTagged x ys
 
 def sortTagged : List (Nat × Int) → List (Nat × Int)
   | [] => []
